@@ -93,6 +93,20 @@ func forTwoDeviations(it *corpus.Item, fn func(src, why string)) {
 	}
 }
 
+// wideItems: the widest corpus (rules, 2-paths, nullable combinations, 3-paths, pairs of positions) in
+// baseline layout and with unique trivia only — every check runs it besides its own deviation space.
+func wideItems(f *corpus.Fam, validOnly bool, fn func(it *corpus.Item, src, why string)) {
+	for _, it := range f.Items(5) {
+		if !it.ScanOK || validOnly && !it.Valid {
+			continue
+		}
+		fn(it, it.Src, it.Why)
+		if it.R != nil && it.Valid {
+			fn(it, corpus.UniqueTrivia(it.R), it.Why+" unique-trivia")
+		}
+	}
+}
+
 // validItems: corpus programs the reference driver accepts (on the tokens the real scanner produced).
 func validItems(f *corpus.Fam, level int) []*corpus.Item {
 	var out []*corpus.Item
@@ -135,6 +149,11 @@ func c02Run(c *core.Ctx) {
 				})
 			}
 		}
+		wideItems(f, true, func(it *corpus.Item, src, why string) {
+			if c.Next() {
+				c02One(c, mkCase(src, f.V, why))
+			}
+		})
 		// production pools: programs of several thousand tokens
 		for _, big := range bigPrograms(f, 2500) {
 			if !c.Next() {
